@@ -244,6 +244,8 @@ class Monitor:
         br.add_guard = add_guard
         br.restore_guard = restore_guard
 
+    base_ignore = False
+
     def reset(self):
         self.shadow = []
         self.regions = {}
@@ -299,7 +301,7 @@ class Monitor:
         if g is None or g.value != expected:
             self.problems.append(("nesting-not-conjunction", "inside region %d the effective guard value is %r, the conjunction of the enclosing conditions is %d" % (
                 rid, None if g is None else g.value, expected)))
-        elif rt._ignore_errors != (expected == 0):
+        elif rt._ignore_errors != (self.base_ignore or expected == 0):
             self.problems.append(("ignore-mode-not-derived-from-guard", "inside region %d _ignore_errors is %r with effective guard %d" % (rid, rt._ignore_errors, expected)))
         elif rt.LinComb.ONE is not g:
             self.problems.append(("constant-one-not-guard", "inside region %d LinComb.ONE is not the guard" % rid))
@@ -387,6 +389,10 @@ def worker(job):
         bl = rnd.choice([6, 8, 16])
         prog = G.Prog(src, [], bl, 0)
         chunks = G.compile_chunks(src)
+        # every fourth program runs with the user's own ignore_errors(True) in effect from the start: regions must hand it back
+        M.base_ignore = (n % 2 == 1)
+        if M.base_ignore:
+            R.count("programs_with_user_ignore_errors")
         # undisturbed run counts the line events
         total = execute(G, N, M, fp, R, prog, chunks, inputs, None, src)
         if total is None:
@@ -403,7 +409,8 @@ def worker(job):
             if trial:
                 ins[nfix:] = [rnd.randint(0, 1) for _ in ins[nfix:]]
             M.reset()
-            out = G.run_api(prog, ins, N, pre=lambda ns: ns.update({"__enter": M.enter, "__leave": M.leave, "__inside": lambda *a: None}), chunks=chunks)
+            out = G.run_api(prog, ins, N, pre=lambda ns: ns.update({"__enter": M.enter, "__leave": M.leave, "__inside": lambda *a: None}), chunks=chunks,
+                            ignore=M.base_ignore)
             if out.exc is not None:
                 continue
             tr = r1cs.canon_trace(out.snap)
@@ -416,6 +423,7 @@ def worker(job):
                         ref_trace[0][nfix:], ins[nfix:], len(ref_trace[1]), len(tr)), src=src, inputs=ins, abort_at=None)
         R.count("programs")
         R.count("abort_points_enumerated", total)
+    M.base_ignore = False
     # add_guard that itself raises must leave the triple untouched
     for src in ["guarded(PrivVal(2))(lambda: 1)()", "guarded(0)(lambda: 1)()", "guarded('x')(lambda: 1)()", "guarded(2)(lambda: 1)()",
                 "_ = BranchingValues()\n_if(PrivVal(3), ctx=_)", "guarded(PrivValBool(1))(lambda: guarded(PrivVal(5))(lambda: 1)())()",
@@ -436,7 +444,7 @@ def execute(G, N, M, fp, R, prog, chunks, inputs, k, src, base=False):
         ns["__enter"], ns["__leave"], ns["__inside"] = M.enter, M.leave, M.inside
     fp.arm(chunks, k, base)
     try:
-        out = G.run_api(prog, inputs, N, pre=pre, chunks=chunks)
+        out = G.run_api(prog, inputs, N, pre=pre, chunks=chunks, ignore=M.base_ignore)
     finally:
         total = fp.count
         fp.disarm()
@@ -460,7 +468,7 @@ def execute(G, N, M, fp, R, prog, chunks, inputs, k, src, base=False):
     guard_after, ign_after, one_safe = out.state_after
     if M.open_blocks == 0:
         R.count("final_state_checked")
-        if guard_after is not None or ign_after is not False or not one_safe:
+        if guard_after is not None or ign_after is not M.base_ignore or not one_safe:
             M.problems.append(("final-state-not-neutral", "after the program (%s): guard=%r ignore=%r ONE is ONE_SAFE=%r" % (path, guard_after, ign_after, one_safe)))
     else:
         R.count("final_state_not_judged_open_block")
